@@ -70,8 +70,8 @@ Lemma sp_add_cols_k k res nf s fr fn (Q : loc -> store -> Prop) : res <> nf -> g
   (forall l' s', get s' l' = Some (c_add_cols fr fn) -> Q l' s') -> wp (add_cols k res nf) s Q.
 Proof. intros N G1 G2 H. eapply wp_mono; [apply (sp_add_cols k res nf s fr fn N G1 G2)|]. exact H. Qed.
 
-Lemma sp_coalesce_k cs : forall l s f (Q : loc -> store -> Prop), get s l = Some f ->
-  (forall l' s', get s' l' = Some (c_coalesce cs f) -> Q l' s') -> wp (coalesce_loop cs l) s Q.
+Lemma sp_coalesce_k sx cs : forall l s f (Q : loc -> store -> Prop), get s l = Some f ->
+  (forall l' s', get s' l' = Some (c_coalesce sx cs f) -> Q l' s') -> wp (coalesce_loop sx cs l) s Q.
 Proof. induction cs as [|c t IH]; intros l s f Q G H; simpl.
   - apply wp_ret. apply H. exact G.
   - run. eapply IH; [getsolve|]. exact H. Qed.
@@ -79,7 +79,7 @@ Proof. induction cs as [|c t IH]; intros l s f Q G H; simpl.
 Ltac run_hook ::=
   lazymatch goal with
   | |- wp (add_cols _ _ _) _ _ => eapply sp_add_cols_k; [neqsolve | getsolve | getsolve | cbv beta; intros ? ? ?; run]
-  | |- wp (coalesce_loop _ _) _ _ => eapply sp_coalesce_k; [getsolve | cbv beta; intros ? ? ?; run]
+  | |- wp (coalesce_loop _ _ _) _ _ => eapply sp_coalesce_k; [getsolve | cbv beta; intros ? ? ?; run]
   | _ => idtac
   end.
 
@@ -98,8 +98,8 @@ Proof. intros G. unfold step_order_rows, c_order_rows, c_order_sorted. run. Qed.
 Lemma sp_map_cols m dels res s f : get s res = Some f ->
   wp (step_map_cols m dels res) s (holds (c_map_cols m dels f)).
 Proof. intros G. unfold step_map_cols, c_map_cols. run. Qed.
-Lemma sp_join on_a on_b jt nr left right s fl fr : left <> right -> get s left = Some fl -> get s right = Some fr ->
-  wp (step_join on_a on_b jt nr left right) s (holds (c_join on_a on_b jt nr fl fr)).
+Lemma sp_join on_a on_b jt nk nr left right s fl fr : left <> right -> get s left = Some fl -> get s right = Some fr ->
+  wp (step_join on_a on_b jt nk nr left right) s (holds (c_join on_a on_b jt nk nr fl fr)).
 Proof. intros N G1 G2. unfold step_join, c_join. run. Qed.
 Lemma sp_concat idcol left right s fl fr : left <> right -> get s left = Some fl -> get s right = Some fr ->
   wp (step_concat idcol left right) s (holds (c_concat idcol fl fr)).
@@ -203,7 +203,7 @@ Proof. intros IH OK la s1 e1 Ra. split; [apply own_plexec|].
 Lemma plexec_agrees p : forall s, env_ok s env -> agrees (plcontent (frames_of s env) p) (plexec env p) s.
 Proof. induction p; simpl; intros s OK;
   try (apply agrees_unary; [apply IHp; auto|]; intros; unfold pl_convert; run);
-  try (apply agrees_binary; [apply IHp1; auto | apply binary_side_pl; auto | intros; run]).
+  try (apply agrees_binary; [apply IHp1; auto | apply binary_side_pl; auto | intros; unfold pl_join, pl_c_join; run]).
   rewrite envf_get_frames_of. unfold pl_table. destruct (env_get env name) as [l0|]; [|reflexivity].
   destruct (get s l0) as [f0|] eqn:G0.
   + destruct (subset cols (f_cols f0)) eqn:S; simpl.
